@@ -60,7 +60,8 @@ func (sel *Selection) findSlice(segs []*Path) (*Selection, error) {
 			}
 			copy := *p
 			copy.parent = p
-			copy.Path = segs[i]
+			// relative to the node found, not just to the selection the search started at
+			copy.Path = &Path{Parent: p.Path, Meta: segs[i].Meta}
 			return &copy, nil
 		} else if meta.IsList(segs[i].Meta) || meta.IsContainer(segs[i].Meta) {
 			r := &ChildRequest{
